@@ -10,7 +10,7 @@ from . import common as c
 
 SUPPORT = ["Enc/Prims.v", "Enc/Ty.v", "Enc/Val.v", "Enc/IR.v", "Enc/Compile.v", "Enc/JsonLite.v", "Enc/MapSort.v",
            "Enc/VM.v", "Enc/Exec.v", "Enc/StdEnc.v", "Enc/CompileWf.v", "Enc/IntBridge.v",
-           "Enc/Sim.v", "Enc/Frag.v", "Enc/Steps.v", "Enc/EncProofs.v"]
+           "Enc/TyLemmas.v", "Enc/Sim.v", "Enc/Frag.v", "Enc/Steps.v", "Enc/EncProofs.v"]
 GENS = ["EncFlags"]
 
 VM_ENV = dict(c.GOENV)
@@ -116,6 +116,8 @@ def load_impl(path):
             res.setdefault(f[1], {})["O"] = f[2:]
         elif k == "T":
             res.setdefault(f[1], {})["T:" + f[2]] = f[3:]
+        elif k == "Q":
+            res.setdefault(f[1], {})["Q:" + f[2]] = f[3:]
         elif k == "X":
             skipped.append(f[1])
     return backend, flags, res, feat, skipped
